@@ -141,6 +141,47 @@ def _site_c10(mb, run, res, v):
     return '*'
 
 
+def _gen_model_mc(rng: Rng):
+    spec = modelgen.gen_spec(rng.fork('spec'), want_mc=True, mc_triggers=True)
+    cfg = cfggen.gen_cfg(rng.fork('cfg'), spec, use_mc=True)
+    return spec, cfg
+
+
+def _collect_c04(mb, run, res, stats, covered):
+    faults = stats.setdefault('faults', {})
+    probes = stats.setdefault('probes', {})
+    mc = mb.mc
+    h = oracles.History(mb, run, res)
+    holder = None
+    key = 'faulty_histories' if run.get('faulty') else 'fault_free_histories'
+    probes[key] = probes.get(key, 0) + 1
+    for c in sorted(h.calls.values(), key=lambda c: c['seq']):
+        if c['side'] == 'o' and c['ret']:
+            if c['ev'] == mc['claim']:
+                if c['ret']['reply'] == mc['grant']:
+                    holder = c['cl']
+                    probes['claims_granted'] = probes.get('claims_granted', 0) + 1
+                else:
+                    faults['claim_denied'] = faults.get('claim_denied', 0) + 1
+            elif c['ev'] == mc['release']:
+                if holder is not None and c['cl'] != holder:
+                    faults['release_by_non_holder_while_claimed'] = faults.get('release_by_non_holder_while_claimed', 0) + 1
+                elif holder is None:
+                    faults['release_without_claim'] = faults.get('release_without_claim', 0) + 1
+                else:
+                    holder = None
+        if c['side'] == 'i' and c['ev'] in mc['out_events']:
+            dels = oracles.mc_deliveries(h, c)
+            k = 'out_event_delivered_to_holder' if dels else 'out_event_raised_without_delivery'
+            probes[k] = probes.get(k, 0) + 1
+            covered.add(c['ev'])
+    for r in res.records:
+        if r['kind'] == 'log' and 'overruling' in r.get('msg', ''):
+            probes['select_overrules'] = probes.get('select_overrules', 0) + 1
+        if r['kind'] == 'log' and 'already_released' in r.get('msg', ''):
+            probes['deselect_when_already_released'] = probes.get('deselect_when_already_released', 0) + 1
+
+
 PROFILES = {
     'C01': {
         'flavor': 'asan', 'model_stream': 'routing',
@@ -162,6 +203,14 @@ PROFILES = {
         'judge': oracles.judge_c10, 'judge_static': _no_static,
         'collect': _collect_c10, 'nontrivial': lambda mb, run, res: bool(run['unbinds']),
         'site': _site_c10, 'pairs': _pairs_c10,
+    },
+    'C04': {
+        'flavor': 'asan', 'model_stream': 'multiclient',
+        'gen_model': _gen_model_mc, 'gen_runs': lambda rng, mb, n: tapes.gen_c04_runs(rng, mb, n),
+        'judge': oracles.judge_c04, 'judge_static': _no_static,
+        'collect': _collect_c04,
+        'nontrivial': lambda mb, run, res: any(r['kind'] == 'hdl' and r['side'] == 'o' and r['cl'] != '-1' for r in res.records),
+        'site': lambda mb, run, res, v: oracles.c04_site(mb, run, res), 'pairs': lambda mb: set(mb.mc['out_events']),
     },
     'C02': {
         'flavor': 'asan', 'model_stream': 'routing',
